@@ -17,6 +17,9 @@ EXPLANATION = (
     'index algebra of the loaders). C17.4: no except clause that can catch an I/O failure (bare, Exception, OSError '
     'family) without re-raising exists in any function reachable from the read API; a positive control is '
     'evaluated on every run.')
+EXPLANATION += (
+    ' ADDED: The length held in a local (n = len(data)) is followed.'
+)
 ASSUMPTIONS = [
     'concurrent.futures stores a worker exception in the future and re-raises it from result()',
     'file.read(n) returns fewer than n bytes only at end of file; the blob client returns what the service sent',
